@@ -1,9 +1,210 @@
 import NibabelModel.Model.C04
+import NibabelModel.Generated.C04
 import Driver.Util
-/-! Line-protocol driver for C04: `C04 <op> <args...>` -> one observable line. -/
+/-! Line-protocol driver for C04: `C04 <op> <args...>` -> one observable line.
+
+  ops
+    rt  <cls> <shape> <A> <hdr> <matmode>     save/load round trip of class <cls>
+    hq  <cls> <A> <code>                        header.set_qform(A, code); get_qform(coded=True)
+    hs  <cls> <A> <code>                        header.set_sform(A, code); get_sform(coded=True)
+    fp  <cls> <b,c,d>                           header.get_qform_quaternion(): ERR / w0 / wpos
+    r32 <x>                                     float32 rounding of a rational (spec validation)
+    q2m <w,x,y,z>                               quat2mat
+    m2q <m9>                                    kMatrix + mat2quat (exact eigenvector), then quat2mat
+    szaff <shape> <zooms> <flip>                shape_zoom_affine
+  rationals are `p/q` or `p`; an affine is 12 comma-separated rationals, row-major 3x4.
+-/
 namespace Nb.Drv.C04
+open Nb Nb.C04
+
+def parseRat? (s : String) : Option Rat :=
+  match s.splitOn "/" with
+  | [p] => p.toInt?.map (fun i => (i : Rat))
+  | [p, q] => match p.toInt?, q.toNat? with
+    | some p, some q => if q = 0 then none else some ((p : Rat) / (q : Rat))
+    | _, _ => none
+  | _ => none
+
+def parseRats? (s : String) : Option (List Rat) :=
+  if s = "-" then some [] else (s.splitOn ",").mapM parseRat?
+
+def parseAff? (s : String) : Option (Aff Rat) :=
+  match parseRats? s with
+  | some [a, b, c, d, e, f, g, h, i, j, k, l] => some ⟨⟨a, b, c, e, f, g, i, j, k⟩, ⟨d, h, l⟩⟩
+  | _ => none
+
+def parseV3? (s : String) : Option (V3 Rat) :=
+  match parseRats? s with
+  | some [a, b, c] => some ⟨a, b, c⟩
+  | _ => none
+
+def showAff (a : Aff Rat) : String :=
+  ",".intercalate ([a.m.a00, a.m.a01, a.m.a02, a.t.x, a.m.a10, a.m.a11, a.m.a12, a.t.y,
+                    a.m.a20, a.m.a21, a.m.a22, a.t.z].map toString)
+
+def showM33 (m : M33 Rat) : String :=
+  ",".intercalate ([m.a00, m.a01, m.a02, m.a10, m.a11, m.a12, m.a20, m.a21, m.a22].map toString)
+
+def showV3 (v : V3 Rat) : String := ",".intercalate ([v.x, v.y, v.z].map toString)
+
+def showCoded : Option (Aff Rat) × Nat → String
+  | (none, c) => toString c ++ ":None"
+  | (some a, c) => toString c ++ ":" ++ showAff a
+
+def showErr : Err → String
+  | .header => "ERR:HeaderDataError"
+  | .value => "ERR:ValueError"
+
+def mkExt (rnd : Rat → Rat) : Ext :=
+  { rnd := rnd, sqrt := sqrtQ, polar := id, topEig := topEigQ, allclose := allcloseQ Gen.rtol Gen.atol }
+
+def fmtN1 : NFmt := ⟨Gen.n1QuatThr, Gen.floatEps⟩
+def fmtN2 : NFmt := ⟨Gen.n2QuatThr, Gen.floatEps⟩
+
+/-- `<code>:<A|->`  -/
+def parseCodedAff? (s : String) : Option (Nat × Option (Aff Rat)) :=
+  match s.splitOn ":" with
+  | [c, a] => match c.toNat? with
+    | none => none
+    | some c => if a = "-" then some (c, none) else (parseAff? a).map (fun a => (c, some a))
+  | _ => none
+
+/-- NIfTI header spec: `-` or `q=<code>:<A|->;s=<code>:<A|->` (set_qform then set_sform on a fresh header) -/
+def parseNHdr? (E : Ext) (shape : List Nat) (s : String) : Option (Option NHdr) :=
+  if s = "-" then some none else
+  match s.splitOn ";" with
+  | [q, sf] =>
+    if q.startsWith "q=" && sf.startsWith "s=" then
+      match parseCodedAff? (q.drop 2).toString, parseCodedAff? (sf.drop 2).toString with
+      | some (qc, qa), some (sc, sa) =>
+        some (some (((defaultNHdr shape).setQform E qa qc).setSform E sa sc))
+      | _, _ => none
+    else none
+  | _ => none
+
+/-- Analyze/SPM header spec: `-` or `z=<z1,z2,z3>;o=<o1,o2,o3>` -/
+def parseAHdr? (shape : List Nat) (s : String) : Option (Option AHdr) :=
+  if s = "-" then some none else
+  match s.splitOn ";" with
+  | [z, o] =>
+    if z.startsWith "z=" && o.startsWith "o=" then
+      match parseV3? (z.drop 2).toString, parseIntList? (o.drop 2).toString with
+      | some z, some [a, b, c] =>
+        -- `set_zooms` on an `ndim`-dimensional header sets `pixdim[1:ndim+1]` only
+        let nd := shape.length
+        some (some ⟨shape, ⟨if 0 < nd then z.x else 1, if 1 < nd then z.y else 1, if 2 < nd then z.z else 1⟩,
+                    ⟨a, b, c⟩⟩)
+      | _, _ => none
+    else none
+  | _ => none
+
+/-- MGH header spec: `-` or `a=<A>` (header of `MGHImage(data, A)`) -/
+def parseMHdr? (E : Ext) (dims : V3 Rat) (s : String) : Option (Option MHdr) :=
+  if s = "-" then some none else
+  if s.startsWith "a=" then
+    (parseAff? (s.drop 2).toString).map (fun a => some ((defaultMHdr dims).updateHeader E a))
+  else none
+
+def parseMode? (s : String) : Option MatMode :=
+  if s = "both" then some .both else if s = "monly" then some .mOnly else if s = "none" then some .none
+  else none
+
+def rtNifti (E : Ext) (f : NFmt) (shape : List Nat) (a : Aff Rat) (hs : String) : String :=
+  match parseNHdr? E shape hs with
+  | none => "bad-op"
+  | some hdr =>
+    match niftiRoundtrip E f shape a hdr with
+    | .error e => showErr e
+    | .ok o => "aff=" ++ showAff o.affine ++ " s=" ++ showCoded o.sform ++ " q=" ++ showCoded o.qform
+
+def rtAnalyze (E : Ext) (k : AKind) (shape : List Nat) (a : Aff Rat) (hs : String) (mode : MatMode) : String :=
+  match parseAHdr? shape hs with
+  | none => "bad-op"
+  | some hdr =>
+    let o := analyzeRoundtrip E k shape a hdr mode
+    "aff=" ++ showAff o.affine ++ " z=" ++ showV3 o.pixdim
+
+def rtMgh (E : Ext) (shape : List Nat) (a : Aff Rat) (hs : String) : String :=
+  if shape.length < 3 then "bad-op" else
+  let dims := natsToV3 shape 1
+  match parseMHdr? E dims hs with
+  | none => "bad-op"
+  | some hdr =>
+    let (aff, f) := mghRoundtrip E dims a hdr
+    "aff=" ++ showAff aff ++ " delta=" ++ showV3 f.delta ++ " mdc=" ++ showM33 f.mdc ++ " c=" ++ showV3 f.pxyzC
 
 def handle : List String → String
+  | ["rt", cls, shape, a, hdr, mode] =>
+      match parseNatList? shape, parseAff? a, parseMode? mode with
+      | some shape, some a, some mode =>
+        if shape.isEmpty then "bad-op"
+        else if cls = "N1" || cls = "N1P" then rtNifti (mkExt roundF32) fmtN1 shape a hdr
+        else if cls = "N2" then rtNifti (mkExt id) fmtN2 shape a hdr
+        else if cls = "AN" then rtAnalyze (mkExt roundF32) .analyze shape a hdr mode
+        else if cls = "S99" || cls = "S2" then rtAnalyze (mkExt roundF32) .spm shape a hdr mode
+        else if cls = "MGH" then rtMgh (mkExt roundF32) shape a hdr
+        else "bad-op"
+      | _, _, _ => "bad-op"
+  | ["hq", cls, a, code] =>
+      -- header level: `hdr.set_qform(A, code); hdr.get_qform(coded=True)`
+      match parseAff? a, code.toNat? with
+      | some a, some code =>
+        let go (E : Ext) (f : NFmt) : String :=
+          match ((defaultNHdr [1, 1, 1]).setQform E (some a) code).qformCoded E f with
+          | .error e => showErr e
+          | .ok o => "q=" ++ showCoded o
+        if cls = "N1" || cls = "N1P" then go (mkExt roundF32) fmtN1
+        else if cls = "N2" then go (mkExt id) fmtN2
+        else "bad-op"
+      | _, _ => "bad-op"
+  | ["hs", cls, a, code] =>
+      -- header level: `hdr.set_sform(A, code); hdr.get_sform(coded=True)`
+      match parseAff? a, code.toNat? with
+      | some a, some code =>
+        let go (E : Ext) : String := "s=" ++ showCoded ((defaultNHdr [1, 1, 1]).setSform E (some a) code).sformCoded
+        if cls = "N1" || cls = "N1P" then go (mkExt roundF32)
+        else if cls = "N2" then go (mkExt id)
+        else "bad-op"
+      | _, _ => "bad-op"
+  | ["fp", cls, bcd] =>
+      -- `hdr.get_qform_quaternion()`: the threshold decision of `fillpositive`
+      match parseV3? bcd with
+      | some v =>
+        let go (thr : Rat) : String :=
+          match fillpositive sqrtQ thr v with
+          | .error e => showErr e
+          | .ok q => if q.w = 0 then "w0" else "wpos"
+        if cls = "N1" || cls = "N1P" then go Gen.n1QuatThr
+        else if cls = "N2" then go Gen.n2QuatThr
+        else "bad-op"
+      | none => "bad-op"
+  | ["r32", x] =>
+      match parseRat? x with
+      | some x => toString (roundF32 x)
+      | none => "bad-op"
+  | ["q2m", q] =>
+      match parseRats? q with
+      | some [w, x, y, z] => showM33 (quat2matG Gen.floatEps ⟨w, x, y, z⟩)
+      | _ => "bad-op"
+  | ["m2q", m] =>
+      match parseRats? m with
+      | some [a, b, c, d, e, f, g, h, i] =>
+          let M : M33 Rat := ⟨a, b, c, d, e, f, g, h, i⟩
+          let q := mat2quat topEigQ M
+          let ex := isExactSquare (q.w * q.w) && isExactSquare (q.x * q.x)
+          (if ex then "" else "inexact ") ++
+            ",".intercalate ([q.w, q.x, q.y, q.z].map toString) ++ " " ++ showM33 (quat2mat q)
+      | _ => "bad-op"
+  | ["szaff", shape, zooms, flip] =>
+      match parseNatList? shape, parseRats? zooms with
+      | some shape, some zs =>
+          if shape.length ≠ zs.length || shape.isEmpty then "ERR:ValueError"
+          else
+            let z : V3 Rat := ⟨zs[0]?.getD 1, zs[1]?.getD 1, zs[2]?.getD 1⟩
+            if flip = "1" then showAff (shapeZoomAffine shape z true)
+            else if flip = "0" then showAff (shapeZoomAffine shape z false)
+            else "bad-op"
+      | _, _ => "bad-op"
   | _ => "bad-op"
 
 end Nb.Drv.C04
